@@ -148,7 +148,6 @@ def expectedFailingOps : List (String × String × String) := [
   ("eventBasedGateway.run$lit", "send", "ch"),                     -- winner notifying a loser that may have left
   ("flowTracker.run", "select", "recv:tracker.traces|recv:tracker.shutdownCh"),
   ("tracing.tracer.run", "send", "subscriber"),                    -- newFlowTracker subscribes and never unsubscribes
-  ("Process.WaitUntilComplete$1", "send", "signal"),               -- D2 (C02)
   ("timer.New$arg", "send", "ch")]
 
 /-- goroutine bodies the model's reading of the code relies on -/
